@@ -47,6 +47,17 @@ def check(chk):
                 ok = g.get("self.enabled") is True or g.get("not self.enabled") is False
                 chk.ob("DOM-33", "%s.%s: `%s` happens only while the block is enabled" % (cls.name, mn, what), ok, f.where(n.ast),
                        detail="guards %s" % sorted(g.items()), construct=f.ident, text="%s while disabled in %s.%s" % (what, cls.name, mn))
+    # ... and *every* hit on an enabled counter is counted: nothing but `enabled` and the multiple-hit window decides whether the value moves
+    # (a completed counter that stays enabled keeps counting; completion is announced once by complete())
+    from sa.cfg import canon_set, canon_fact
+    from sa.helpers import positive
+    cf = counter.methods["count"]
+    ccfg = cf.cfg()
+    upd = [n for n in ccfg.nodes if n.kind == "stmt" and isinstance(n.ast, ast.AugAssign) and src(n.ast.target) == "self.value"]
+    ok = len(upd) == 1 and positive(set(canon_set(ccfg.guards_at(upd[0].id)))) == positive({canon_fact("self.enabled", True), canon_fact("self.ignore_hits", False)})
+    chk.ob("DOM-33", "Counter.count moves the value for every hit on an enabled counter outside the multiple-hit window (no further condition)", ok,
+           cf.where(upd[0].ast) if upd else cf.where(), detail="guards %s" % sorted(ccfg.guards_at(upd[0].id).items()) if upd else "", construct=cf.ident,
+           text="count selection")
     chk.floor("DOM-33", 10)
 
     # ------------------------------------------------------------ DOM-34
@@ -285,6 +296,7 @@ def battery():
         M("twin: early return inside window", LB, "        if not self.ignore_hits:\n            self.value += self.hit_value", "        if self.ignore_hits:\n            return\n        if not self.ignore_hits:\n            self.value += self.hit_value", None),
         M("twin: log text", LB, "        self.debug_log(\"Complete\")", "        self.debug_log(\"Completed\")", None),
         M("hit window restarted by ignored hits", LB, "            if self.config['multiple_hit_window']:\n                self.debug_log(\"Beginning Ignore Hits\")\n                self.ignore_hits = True\n                self.delay.add(name='ignore_hits_within_window',\n                               ms=self.config['multiple_hit_window'],\n                               callback=self.stop_ignoring_hits)", "        if self.config['multiple_hit_window']:\n            self.debug_log(\"Beginning Ignore Hits\")\n            self.ignore_hits = True\n            self.delay.add(name='ignore_hits_within_window',\n                           ms=self.config['multiple_hit_window'],\n                           callback=self.stop_ignoring_hits)", "PAIR-21"),
+        M("completed counter drops hits", LB, "        if not self.enabled:\n            return\n\n        count_complete_value =", "        if not self.enabled or self.completed:\n            return\n\n        count_complete_value =", "DOM-33"),
     ]
 
 
